@@ -15,6 +15,8 @@
 //   -mode real  : real event loops on loopback / unix sockets, seeded random clients, handler
 //                 durations and deadlines around Shutdown; one `obs` line per scenario.
 //   -mode emfile: descriptor exhaustion (RLIMIT_NOFILE lowered in this process), two episodes.
+//   -mode stretch: descriptor exhaustion of chosen lengths: a Listener handed to Serve fails the first k accepts
+//                 with EMFILE (k up to beyond the length of the back-off goroutine's delay table).
 package netpoll
 
 import (
@@ -1239,6 +1241,182 @@ func srvEmfile(opsOut string) int {
 	return writeLines(opsOut, []string{line})
 }
 
+// ---------------------------------------------------------------- exhaustion stretches of a chosen length
+
+// stretchLn is the Listener handed to Serve: the first `remaining` Accept calls fail with EMFILE (the pending
+// connection stays in the kernel queue, exactly as with a real EMFILE), every later call is the real accept.
+// Everything else - OnRead, the back-off goroutine, its delay table - is the real code.
+type stretchLn struct {
+	Listener
+	mu        sync.Mutex
+	remaining int
+	calls     []time.Time
+	results   []byte // E = EMFILE injected, C = connection, A = EAGAIN, X = other error
+}
+
+func (l *stretchLn) Accept() (net.Conn, error) {
+	l.mu.Lock()
+	l.calls = append(l.calls, time.Now())
+	if l.remaining > 0 {
+		l.remaining--
+		l.results = append(l.results, 'E')
+		l.mu.Unlock()
+		return nil, syscall.EMFILE
+	}
+	l.mu.Unlock()
+	c, err := l.Listener.Accept()
+	r := byte('A')
+	if err != nil {
+		r = 'X'
+	} else if c != nil {
+		r = 'C'
+	}
+	l.mu.Lock()
+	l.results = append(l.results, r)
+	l.mu.Unlock()
+	return c, err
+}
+
+func pingEcho(addr string, wait time.Duration) (net.Conn, func() bool) {
+	c, err := net.DialTimeout("tcp", addr, 2*time.Second)
+	if err != nil {
+		return nil, func() bool { return false }
+	}
+	c.Write([]byte("ping"))
+	return c, func() bool {
+		c.SetReadDeadline(time.Now().Add(wait))
+		b := make([]byte, 4)
+		_, err := io.ReadFull(c, b)
+		return err == nil && string(b) == "ping"
+	}
+}
+
+// one stretch: accept fails k times in a row; one client connects at its start, one after it
+func srvStretchOne(k int, table []int) string {
+	raw, err := CreateListener("tcp", "127.0.0.1:0")
+	if err != nil {
+		return fmt.Sprintf("stretch k=%d harness_error=listen", k)
+	}
+	ln := &stretchLn{Listener: raw, remaining: k}
+	evl, _ := NewEventLoop(func(ctx context.Context, c Connection) error {
+		r := c.Reader()
+		if n := r.Len(); n > 0 {
+			b, _ := r.Next(n)
+			c.Writer().WriteBinary(append([]byte(nil), b...))
+			c.Writer().Flush()
+		}
+		return nil
+	})
+	go evl.Serve(ln)
+	for i := 0; i < 50000; i++ { // until the listener is registered
+		evl.(*eventLoop).Lock()
+		ok := evl.(*eventLoop).svr != nil
+		evl.(*eventLoop).Unlock()
+		if ok {
+			break
+		}
+		time.Sleep(100 * time.Microsecond)
+	}
+	// how long the back-off goroutine of the model needs for k failures (the table is read from the code)
+	budget := 0
+	for j := 1; j < k+1; j++ {
+		i := j
+		if i >= len(table) {
+			i = len(table) - 1
+		}
+		if i >= 0 {
+			budget += table[i]
+		}
+	}
+	wait := time.Duration(budget)*time.Millisecond*2 + 8*time.Second
+	addr := raw.Addr().String()
+	c1, echoed := pingEcho(addr, wait) // queued while descriptors are "exhausted"
+	served := 0
+	if echoed() {
+		served = 1
+	}
+	fresh := 0
+	c2, echoed2 := pingEcho(addr, 10*time.Second)
+	if echoed2() {
+		fresh = 1
+	}
+	for _, c := range []net.Conn{c1, c2} {
+		if c != nil {
+			c.Close()
+		}
+	}
+	ln.mu.Lock()
+	calls := append([]time.Time(nil), ln.calls...)
+	results := string(ln.results)
+	ln.mu.Unlock()
+	// gaps in front of the back-off goroutine's accepts (call 0 is OnRead's), up to its first success
+	var gaps []string
+	for i := 1; i < len(calls) && i < len(results)+1; i++ {
+		gaps = append(gaps, strconv.Itoa(int(calls[i].Sub(calls[i-1])/time.Millisecond)))
+		if i < len(results) && results[i] == 'C' {
+			break
+		}
+	}
+	fails := strings.Count(results, "E")
+	ctx, cancel := context.WithTimeout(context.Background(), 2*time.Second)
+	sh := "nil"
+	if err := evl.Shutdown(ctx); err != nil {
+		sh = "ctx"
+	}
+	cancel()
+	if len(results) > 24 {
+		results = results[:24] + "+"
+	}
+	return fmt.Sprintf("stretch k=%d crashed=0 queued=1 served=%d fresh=%d fails=%d results=%s gaps=%s sh=%s",
+		k, served, fresh, fails, results, strings.Join(gaps, ","), sh)
+}
+
+// srvStretch runs the stretches concurrently (each on its own event loop); one line per stretch as it ends, a
+// `begin` line when it starts, so that a process that dies half-way tells which stretches were in progress
+func srvStretch(ks string, factsPath, opsOut string) int {
+	var facts struct {
+		Retry struct {
+			Table []string `json:"table"`
+		} `json:"server_retry"`
+	}
+	if b, err := os.ReadFile(factsPath); err == nil {
+		json.Unmarshal(b, &facts)
+	}
+	var table []int
+	for _, t := range facts.Retry.Table {
+		v, _ := strconv.Atoi(t)
+		table = append(table, v)
+	}
+	f, err := os.Create(opsOut)
+	if err != nil {
+		fmt.Fprintln(os.Stderr, err)
+		return 2
+	}
+	var mu sync.Mutex
+	emit := func(l string) {
+		mu.Lock()
+		f.WriteString(l + "\n")
+		f.Sync()
+		mu.Unlock()
+	}
+	var wg sync.WaitGroup
+	for _, x := range strings.Split(ks, ",") {
+		k, err := strconv.Atoi(strings.TrimSpace(x))
+		if err != nil || k < 1 {
+			continue
+		}
+		wg.Add(1)
+		go func(k int) {
+			defer wg.Done()
+			emit(fmt.Sprintf("begin k=%d", k))
+			emit(srvStretchOne(k, table))
+		}(k)
+	}
+	wg.Wait()
+	f.Close()
+	return 0
+}
+
 func writeLines(path string, lines []string) int {
 	if err := os.WriteFile(path, []byte(strings.Join(lines, "\n")+"\n"), 0o644); err != nil {
 		fmt.Fprintln(os.Stderr, err)
@@ -1250,7 +1428,8 @@ func writeLines(path string, lines []string) int {
 // VerifSrvHMain is the entry point of go/cmd/srvh.
 func VerifSrvHMain(args []string) int {
 	fs := flag.NewFlagSet("srvh", flag.ContinueOnError)
-	mode := fs.String("mode", "sweep", "sweep | real | emfile")
+	mode := fs.String("mode", "sweep", "sweep | real | emfile | stretch")
+	ks := fs.String("ks", "", "stretch: comma separated lengths (consecutive failed accepts)")
 	facts := fs.String("facts", "", "facts.json (server_steps)")
 	plan := fs.String("plan", "", "sweep plan: lines `<kind> <fn> <k>`")
 	opsOut := fs.String("ops-out", "", "")
@@ -1273,6 +1452,8 @@ func VerifSrvHMain(args []string) int {
 		return srvReal(*seed, *n, *probes, *opsOut)
 	case "emfile":
 		return srvEmfile(*opsOut)
+	case "stretch":
+		return srvStretch(*ks, *facts, *opsOut)
 	}
 	return 2
 }
